@@ -53,3 +53,48 @@ pub fn string_inputs(seed: u64) -> impl Iterator<Item = Value> {
     }
     out.into_iter()
 }
+
+// ---------------------------------------------------------------- C15: whole values: print -> parse, and JSON round trip
+fn build(v: &Value) -> ConstValue {
+    match v {
+        Value::Null => ConstValue::Null,
+        Value::Bool(b) => ConstValue::Boolean(*b),
+        Value::Number(n) => ConstValue::Number(n.clone()),
+        Value::String(s) => if let Some(e) = s.strip_prefix("enum:") { ConstValue::Enum(async_graphql_value::Name::new(e)) } else if let Some(u) = s.strip_prefix("u64:") { ConstValue::Number(u.parse::<u64>().unwrap().into()) } else { ConstValue::String(s.clone()) },
+        Value::Array(a) => ConstValue::List(a.iter().map(build).collect()),
+        Value::Object(o) => ConstValue::Object(o.iter().map(|(k, v)| (async_graphql_value::Name::new(k), build(v))).collect()),
+    }
+}
+/// args {"v": <json>}  ("enum:X" strings become enum values, "u64:N" unsigned numbers)
+pub fn value_roundtrip(args: &Value) -> Outcome {
+    let v = build(&args["v"]);
+    let mut bad = Vec::new();
+    // 1. Display prints a GraphQL literal that the crate's parser reads back as the same value
+    let printed = v.to_string();
+    match parse_query(&format!("{{ f(a: {}) }}", printed)) {
+        Err(e) => bad.push(format!("printed {:?} does not parse: {}", printed, e)),
+        Ok(d) => { let mut got = None;
+            for (_, op) in d.operations.iter() { for item in &op.node.selection_set.node.items { if let Selection::Field(f) = &item.node { if let Some((_, a)) = f.node.arguments.first() { got = a.node.clone().into_const(); } } } }
+            if got.as_ref() != Some(&v) { bad.push(format!("printed {:?} reads back as {:?}", printed, got)); } }
+    }
+    // 2. JSON: to text and back, and through serde_json::Value
+    let has_enum = printed.contains(|c: char| c.is_ascii_uppercase()) && args["v"].to_string().contains("enum:");
+    if !has_enum {   // enums are written to JSON as strings: not injective by design
+        let text = serde_json::to_string(&v).unwrap();
+        match serde_json::from_str::<ConstValue>(&text) { Ok(b) if b == v => {}, other => bad.push(format!("JSON text {:?} reads back as {:?}", text, other.map_err(|e| e.to_string()))) }
+        match v.clone().into_json().map(ConstValue::from_json) { Ok(Ok(b)) if b == v => {}, other => bad.push(format!("into_json/from_json gives {:?}", other.map(|x| x.map_err(|e| e.to_string())).map_err(|e| e.to_string()))) }
+    }
+    Outcome { holds: bad.is_empty(), observed: if bad.is_empty() { format!("{} round-trips", printed) } else { bad.join("; ") }, expected: "print->parse and JSON round trips preserve the value".into() }
+}
+pub fn value_inputs(seed: u64) -> impl Iterator<Item = Value> {
+    let leaves = vec![json!(null), json!(true), json!(false), json!(0), json!(-1), json!(i64::MAX), json!(i64::MIN), json!("u64:9223372036854775808"), json!("u64:18446744073709551615"), json!(1.5), json!(-0.25), json!(1e300), json!(1e-7),
+                      json!(""), json!("a\"b\\c"), json!("line\nfeed\rcr\ttab"), json!("\u{0}\u{1b}\u{7f}\u{9f}"), json!("\u{e9}\u{1F600}"), json!("enum:RED"), json!("enum:a_b1")];
+    let mut out: Vec<Value> = leaves.iter().map(|l| json!({"v": l})).collect();
+    let mut r = Rng(seed);
+    for _ in 0..60 {
+        let pick = |r: &mut Rng| leaves[r.below(leaves.len() as u64) as usize].clone();
+        let v = match r.below(4) { 0 => json!([pick(&mut r), pick(&mut r)]), 1 => json!({"k": pick(&mut r), "k2": [pick(&mut r)]}), 2 => json!([[pick(&mut r)], {"x": pick(&mut r)}]), _ => json!({"a": {"b": {"c": pick(&mut r)}}, "l": []}) };
+        out.push(json!({"v": v}));
+    }
+    out.into_iter()
+}
